@@ -9,6 +9,9 @@ import Oracle.Aac
 import Oracle.Kxps
 import Oracle.Json
 import Oracle.Txn
+import Oracle.Http
+import Oracle.Logger
+import Oracle.Jose
 
 namespace Oracle
 
@@ -20,7 +23,10 @@ def handlers : List (String × (String → List String → Option String)) := [
   ("adts.", Oracle.Aac.handle), ("asc.", Oracle.Aac.handle), ("aac.", Oracle.Aac.handle),
   ("kxps.", Oracle.Kxps.handle),
   ("json.", Oracle.Json.handle),
-  ("txn.", Oracle.Txn.handle)
+  ("txn.", Oracle.Txn.handle),
+  ("http.", Oracle.Http.handle),
+  ("logger.", Oracle.Logger.handle),
+  ("jose.", Oracle.Jose.handle)
 ]
 
 def dispatch (op : String) (args : List String) : Option String :=
